@@ -211,6 +211,11 @@ Section AnyPlan.
     - eapply on_obj_ok in H; eauto. apply refuse_ok. reflexivity.
     - eapply on_obj_ok in H; eauto. apply refuse_ok. intros st; unfold emplace_before; now destruct (cap st <=? size st).
     - eapply on_obj_ok in H; eauto. apply refuse_ok. reflexivity.
+    - (* OConstructFrom *) destruct (i =? j); [inversion H; subst; repeat split; auto; discriminate|].
+      destruct (pget P j) as [src|] eqn:Ej; [|inversion H; subst; repeat split; auto; discriminate].
+      destruct (make_from_obj p c src) as [st o] eqn:E.
+      apply (make_from_obj_good Q) in E; [|eapply PAll_pget; eauto]. destruct E as (A & _ & B & _).
+      eapply construct_ok in H; eauto.
   Qed.
 End AnyPlan.
 
@@ -282,6 +287,8 @@ Proof.
     intros st st' o. destruct (self_range_valid st a b); auto. apply insert_self_range_unfault.
   - apply (on_obj_unfault (fun q st => if self_range_valid st a b then push_back_self_range q a b st else (st, Skipped)) p); auto.
     intros st st' o. destruct (self_range_valid st a b); auto. apply insert_self_range_unfault.
+  - destruct (i =? j); auto. destruct (pget P j) as [src|]; auto.
+    apply (construct_unfault (fun q => make_from_obj q c src) p); auto. intros; eapply make_from_obj_unfault; eauto.
 Qed.
 
 (* ---------- C07: without faults, pstep refines sstep, and the strong invariant is kept ---------- *)
@@ -533,6 +540,17 @@ Proof.
   - eapply on_obj_refines in H; eauto. apply refuse_I. reflexivity.
   - eapply on_obj_refines in H; eauto. apply refuse_I. intros st; unfold emplace_before; now destruct (cap st <=? size st).
   - eapply on_obj_refines in H; eauto. apply refuse_I. reflexivity.
+  - (* OConstructFrom *) destruct (i =? j); [inversion H; subst; auto|].
+    rewrite aget_absP. destruct (pget P j) as [src|] eqn:Ej; simpl; [|inversion H; subst; auto].
+    pose proof (PAll_pget _ _ _ _ HP Ej) as Hs.
+    destruct (make_from_obj None c src) as [st o] eqn:E.
+    pose proof (make_from_obj_good filled _ _ _ _ _ E Hs) as (A & _ & B & _).
+    apply (make_from_obj_refines filled) in E; auto. split.
+    + eapply (construct_ok Inv) in H; eauto. apply H.
+    + destruct (length (abs src) <=? c).
+      * destruct E as (-> & E2 & E3). apply construct_refines in H; auto. simpl in H.
+        unfold absobj in H. now rewrite E2, E3 in H.
+      * subst o. apply construct_refines in H; auto.
 Qed.
 
 (* ---------- the strong invariant under fault plans: lost only by a throw inside positional emplace / erase ---------- *)
@@ -552,7 +570,7 @@ Qed.
 Definition target (o : op) : option nat :=
   match o with
   | ONew i _ | ONewFrom i _ _ | ONewList i _ | OCopy i _ | OMove i _ | OAssign i _ | OMoveAssign i _ | OListAssign i _
-  | ODestroy i => Some i
+  | ODestroy i | OConstructFrom i _ _ => Some i
   | _ => None
   end.
 
@@ -661,6 +679,8 @@ Proof.
   - eapply (on_obj_cap WInv) in H; eauto. intros s _. reflexivity.
   - eapply (on_obj_cap WInv) in H; eauto. intros s _. unfold emplace_before. now destruct (cap s <=? size s).
   - eapply (on_obj_cap WInv) in H; eauto. intros s _. reflexivity.
+  - destruct (i =? j); [inversion H; subst; auto|]. destruct (pget P j); [|inversion H; subst; auto].
+    apply Same. eapply construct_other; eauto; congruence.
 Qed.
 
 (* ---------- whole histories ---------- *)
